@@ -25,29 +25,30 @@ type NodeCfg struct {
 type Step struct {
 	Op string `json:"op"`
 	// block
-	Dels  []int  `json:"dels,omitempty"`  // picks into live leaves (slot order), without replacement
-	Adds  int    `json:"adds,omitempty"`  // number of fresh leaves
-	Seed  uint64 `json:"seed,omitempty"`  // per-step pure-function seed (remember flags, deletion order, re-encoding, subsets)
-	Lat   []int  `json:"lat,omitempty"`   // per-node latency of the announcement; 0 = dropped; negative = duplicated with |lat| and 2|lat|
+	Dels []int  `json:"dels,omitempty"` // picks into live leaves (slot order), without replacement
+	Adds int    `json:"adds,omitempty"` // number of fresh leaves
+	Seed uint64 `json:"seed,omitempty"` // per-step pure-function seed (remember flags, deletion order, re-encoding, subsets)
+	Lat  []int  `json:"lat,omitempty"`  // per-node latency of the announcement; 0 = dropped; negative = duplicated with |lat| and 2|lat|
 	// tip: switch the best tip to block Pick%len(blocks) (reorg / branch switch)
 	Pick int `json:"pick,omitempty"`
 	// tick
 	Dt int `json:"dt,omitempty"`
 	// node-directed operations
-	Node  int   `json:"node,omitempty"`
-	Picks []int `json:"picks,omitempty"`
-	Arg   int   `json:"arg,omitempty"`
+	Node  int    `json:"node,omitempty"`
+	Picks []int  `json:"picks,omitempty"`
+	Arg   int    `json:"arg,omitempty"`
 	Mode  string `json:"mode,omitempty"`
 }
 
 type Scenario struct {
-	Property string    `json:"property"`
-	Profile  string    `json:"profile"`
-	Seed     uint64    `json:"seed"`
-	Tree     string    `json:"tree,omitempty"`
-	Class    string    `json:"class,omitempty"`
-	Nodes    []NodeCfg `json:"nodes"`
-	Steps    []Step    `json:"steps"`
+	Property string     `json:"property"`
+	Profile  string     `json:"profile"`
+	Seed     uint64     `json:"seed"`
+	Tree     string     `json:"tree,omitempty"`
+	Class    string     `json:"class,omitempty"`
+	Forged   int        `json:"forged,omitempty"` // percent of block deliveries preceded by a forged (rejected) message
+	Nodes    []NodeCfg  `json:"nodes"`
+	Steps    []Step     `json:"steps"`
 	Expect   *Violation `json:"expect,omitempty"`
 }
 
@@ -88,7 +89,7 @@ func LoadScenario(path string) (*Scenario, error) {
 // Violation is what an oracle reports.
 type Violation struct {
 	Property string `json:"property"`
-	Class    string `json:"class"`  // short stable label: used for "same violation" during minimisation and for known-finding matching
+	Class    string `json:"class"` // short stable label: used for "same violation" during minimisation and for known-finding matching
 	Node     string `json:"node,omitempty"`
 	Step     int    `json:"step"`
 	Detail   string `json:"detail,omitempty"`
